@@ -45,6 +45,10 @@ func NewSparseConstInt32Vector(indices []int, values []int32, n int) SparseConst
   if len(indices) != len(values) {
     panic("invalid number of indices")
   }
+  // work on copies: the caller's slices are neither reordered nor shared
+  // with the vector (the Unsafe constructor above is the one that shares)
+  indices = append([]int{}, indices...)
+  values = append([]int32{}, values...)
   sort.Sort(sortIntConstInt32{indices, values})
   r := nilSparseConstInt32Vector(n)
   r.indices = indices[0:0]
